@@ -337,7 +337,7 @@ func checkC04(c *Ctx) {
 	}
 	c04FirstWrites(c)
 	c04ConsoleNamespace(c)
-	for _, f := range sharedFileLines() {
+	for _, f := range append(sharedFileLines(), lockedBufferedSinkLines()...) {
 		switch f.Key {
 		case "harness":
 			c.Inconclusive("%s", f.What)
